@@ -5,3 +5,4 @@ import AtsimModel.Driver.Cutoff
 import AtsimModel.Driver.Expr
 import AtsimModel.Driver.Lang
 import AtsimModel.Driver.Trace
+import AtsimModel.Driver.Filter
